@@ -234,10 +234,13 @@ fn search_server(seed: u64, budget: usize) -> Option<Value> {
 // ---------------------------------------------------------------------------------------------
 // C06: chains.  calls: 0 = plain, 1 = oneway, 2 = more, 3 = oneway + more (owed nothing).  script[i] for non-oneway call i:
 // (k continuing replies, final kind: 0 = success, 1 = declared error)
-fn run_chain(flags: &[u8], script: &[(usize, u8)], cuts: &[usize], pending: &[usize]) -> (Vec<String>, Vec<String>) {
+/// `prologue`: that many plain calls are first enqueued DIRECTLY on the connection, flushed, and their replies received by hand -
+/// an earlier, finished exchange; the chain that follows owes and is owed nothing on its account
+fn run_chain(flags: &[u8], script: &[(usize, u8)], cuts: &[usize], pending: &[usize], prologue: usize) -> (Vec<String>, Vec<String>) {
     use futures_util::stream::StreamExt;
     let mut wire = Vec::new();
     let mut expected = Vec::new();
+    for j in 0..prologue { wire.extend_from_slice(format!(r#"{{"parameters":{{"a":{}}}}}"#, 7000 + j).as_bytes()); wire.push(0); expected.push(format!("prologue:{}", 7000 + j)); }
     let mut si = 0;
     let last_owing = flags.iter().rposition(|f| *f == 0 || *f == 2);
     for (i, f) in flags.iter().enumerate() {
@@ -278,6 +281,14 @@ fn run_chain(flags: &[u8], script: &[(usize, u8)], cuts: &[usize], pending: &[us
     let mut conn = zlink_core::Connection::new(sock);
     let mk = |i: usize, f: u8| Call::new(M::B { a: i as u32 }).set_oneway(f == 1 || f == 3).set_more(f == 2 || f == 3);
     let mut got = Vec::new();
+    let mut prologue_expected = Vec::new();
+    if prologue > 0 {
+        for j in 0..prologue { let c = Call::new(M::B { a: 7000 + j as u32 }); conn.enqueue_call(&c).unwrap(); prologue_expected.extend_from_slice(&serde_json::to_vec(&c).unwrap()); prologue_expected.push(0); }
+        block_on(conn.flush(), 10).unwrap();
+        for _ in 0..prologue {
+            match block_on(conn.receive_reply::<P, E>(), 1000) { Ok(Ok(r)) => got.push(format!("prologue:{}", r.parameters().map(|p| p.a).unwrap_or(0))), other => got.push(format!("prologue-lost:{other:?}")) }
+        }
+    }
     {
         let mut chain = conn.chain_call::<M, P, E>(&mk(0, flags[0])).unwrap();
         calls_expected.extend_from_slice(&serde_json::to_vec(&mk(0, flags[0])).unwrap());
@@ -306,7 +317,8 @@ fn run_chain(flags: &[u8], script: &[(usize, u8)], cuts: &[usize], pending: &[us
         Ok(Ok(r)) => got.push(format!("later:{}", r.parameters().map(|p| p.a).unwrap_or(0))),
         other => got.push(format!("later-lost:{other:?}")),
     }
-    let log = script_h.borrow().log.clone();
+    let mut log = script_h.borrow().log.clone();
+    if prologue > 0 { if log.first() != Some(&prologue_expected) { got.push("prologue-writes-wrong".into()); } else { log.remove(0); } }
     if log.len() != 1 || log[0] != calls_expected {
         got.push(format!("writes:{:?}", log.iter().map(|w| show(w)).collect::<Vec<_>>()));
     }
@@ -321,9 +333,10 @@ fn search_chain(seed: u64, budget: usize) -> Option<Value> {
         let script: Vec<(usize, u8)> = (0..n).map(|_| (rng.below(3), if rng.below(6) == 0 { 2 } else { rng.below(2) as u8 })).collect();
         let cuts: Vec<usize> = match rng.below(3) { 0 => vec![], 1 => vec![1 + rng.below(9)], _ => (0..3).map(|_| 1 + rng.below(50)).collect() };
         let pending: Vec<usize> = if rng.below(2) == 0 { vec![] } else { (0..1 + rng.below(4)).map(|_| rng.below(12)).collect() };
-        let (exp, got) = run_chain(&flags, &script, &cuts, &pending);
+        let prologue = if rng.below(4) == 0 { 1 + rng.below(3) } else { 0 };
+        let (exp, got) = run_chain(&flags, &script, &cuts, &pending, prologue);
         if exp != got {
-            return Some(json!({"kind":"chain","flags":flags,"script":script,"cuts":cuts,"pending_reads":pending,"expected":exp,"got":got}));
+            return Some(json!({"kind":"chain","flags":flags,"script":script,"cuts":cuts,"pending_reads":pending,"prologue":prologue,"expected":exp,"got":got}));
         }
     }
     None
@@ -1432,7 +1445,8 @@ fn main() {
             let script: Vec<(usize, u8)> = w["script"].as_array().unwrap().iter().map(|x| (x[0].as_u64().unwrap() as usize, x[1].as_u64().unwrap() as u8)).collect();
             let cuts: Vec<usize> = w["cuts"].as_array().unwrap().iter().map(|x| x.as_u64().unwrap() as usize).collect();
             let pending: Vec<usize> = w.get("pending_reads").and_then(|p| p.as_array()).map(|a| a.iter().map(|x| x.as_u64().unwrap() as usize).collect()).unwrap_or_default();
-            let (exp, got) = run_chain(&flags, &script, &cuts, &pending);
+            let prologue = w["prologue"].as_u64().unwrap_or(0) as usize;
+            let (exp, got) = run_chain(&flags, &script, &cuts, &pending, prologue);
             println!("flags (0 plain,1 oneway,2 more) = {flags:?} script = {script:?} reads that are Pending once = {pending:?}");
             println!("expected = {exp:?}");
             println!("got      = {got:?}");
